@@ -5626,3 +5626,22 @@ def round5_rules(ctx):
             ctx._ob(okc, ctx.sample('order', f, p.line, 'read cache cleared before %s' % p.desc))
             if not okc:
                 ctx.violate('order|%s|cached-verification|%s' % (f.path, p.desc), '%s can run without the read cache having been cleared: damage in the storage is hidden by cached pages and the check may certify it' % p.desc, f, p.line)
+
+
+def handover_rules(ctx):
+    ctx.set_rule('C06.R2', '')
+    f = ctx.fn('TableTreeMut::flush_and_close')
+    if f is not None:
+        sw = ctx.sites(f, 'mem::swap', exact=1)
+        cl = ctx.sites(f, 'PageTracker::close', exact=2)
+        fi = ctx.sites(f, 'TableTreeMut::flush_inner', exact=1)
+        # on the success arm the freed list is taken (swapped out) and the tracker's set is returned
+        ctx.must_pass(f, sw, exits='success', what='the freed pages collected by this transaction are handed to the commit')
+        for p in cl:
+            pass
+        ctx.must_pass(f, cl, exits='any', what='the allocation tracker is closed on every exit')
+        for p in sw:
+            ctx.flows(f, p, 0, from_call='Mutex::lock', what='the list swapped out is the one behind the freed-pages lock')
+    f = ctx.fn('TableTreeMut::clear_pending_table_update')
+    if f is not None:
+        call_rule(ctx, 'TableTreeMut::clear_pending_table_update', 'BTreeMap::remove', 'opening a table takes its staged update out', exact=1, exits='any', arg_from=[(1, ('arg', 'name'))])
